@@ -268,21 +268,43 @@ fn general_cases(recvs: &[Recv], r: &Recv, rng: &mut Rng, prop: &str, _iter: usi
     make_case(recvs, r, rng, prop).into_iter().collect()
 }
 
-fn run_general(args: &Args, prop: &'static str) -> i32 {
-    run_corpus(
-        args,
-        prop,
-        Plan {
-            tag: "general",
-            profile: profile_general(),
-            programs: (224, 1400),
-            per_program: (80, 400),
-            cases: general_cases,
-            min_nontrivial: 200,
-            adopt: &[],
-            suggestions: true,
-        },
-    )
+fn general_plan() -> Plan {
+    Plan {
+        tag: "general",
+        profile: profile_general(),
+        programs: (224, 1400),
+        per_program: (80, 400),
+        cases: general_cases,
+        min_nontrivial: 200,
+        adopt: &[],
+        suggestions: true,
+    }
+}
+
+fn element_plan() -> Plan {
+    Plan {
+        tag: "element",
+        profile: profile_element(),
+        programs: (160, 1200),
+        per_program: (30, 120),
+        cases: partition_cases,
+        min_nontrivial: 200,
+        adopt: &[],
+        suggestions: true,
+    }
+}
+
+fn enum_plan() -> Plan {
+    Plan {
+        tag: "enum",
+        profile: profile_enum(),
+        programs: (96, 900),
+        per_program: (19 * 9, 19 * 9 * 2),
+        cases: enum_grid_cases,
+        min_nontrivial: 200,
+        adopt: &[],
+        suggestions: true,
+    }
 }
 
 pub fn profile_element() -> Profile {
@@ -435,7 +457,11 @@ fn magic_cases(recvs: &[Recv], r: &Recv, rng: &mut Rng, prop: &str, _iter: usize
     let mut eg = elem::ElemGen {
         ig: &mut ig,
         recvs,
-        p_mistake: if prop == "C16" { 2 } else { 3 },
+        p_mistake: match prop {
+            "C16" => 2,
+            "C02" | "C03" => 6,
+            _ => 3,
+        },
     };
     let mut e = eg.element(rng, r, &mut mistakes);
     let rendered = elem::render(&mut e, rng.below(6) as u8);
@@ -1108,64 +1134,37 @@ fn feature_table(recvs: &[Recv]) -> Value {
 fn main() {
     let args = Args::parse();
     vfcommon::install_quiet_panic_hook();
+    let profile = args.extra.get("profile").cloned();
     let code = match args.prop.as_str() {
-        "C01" => run_general(&args, "C01"),
-        "C02" => run_general(&args, "C02"),
-        "C03" => run_general(&args, "C03"),
-        "C07" => match args.extra.get("profile").map(|s| s.as_str()) {
-            Some("element") => run_corpus(
-                &args,
-                "C07",
-                Plan {
-                    tag: "element",
-                    profile: profile_element(),
-                    programs: (160, 1200),
-                    per_program: (30, 120),
-                    cases: partition_cases,
-                    min_nontrivial: 200,
-                    adopt: &[],
-            suggestions: true,
-                },
-            ),
-            Some("magic") => {
-                let mut p = magic_plan();
-                p.adopt = &[];
-                run_corpus(&args, "C07", p)
-            }
-            Some("enum") => run_corpus(
-                &args,
-                "C07",
-                Plan {
-                    tag: "enum",
-                    profile: profile_enum(),
-                    programs: (96, 900),
-                    per_program: (19 * 9, 19 * 9 * 2),
-                    cases: enum_grid_cases,
-                    min_nontrivial: 200,
-                    adopt: &[],
-            suggestions: true,
-                },
-            ),
-            _ => run_general(&args, "C07"),
-        },
-        "C17" => match args.extra.get("profile").map(|s| s.as_str()) {
-            Some("nosuggest") => run_corpus(
-                &args,
-                "C17",
-                Plan {
+        // the aspect properties can be run over any plan: ./check lists which plans each one uses
+        p @ ("C01" | "C02" | "C03" | "C07" | "C17") => {
+            let prop: &'static str = match p {
+                "C01" => "C01",
+                "C02" => "C02",
+                "C03" => "C03",
+                "C07" => "C07",
+                _ => "C17",
+            };
+            let mut plan = match profile.as_deref() {
+                Some("element") => element_plan(),
+                Some("enum") => enum_plan(),
+                Some("magic") => magic_plan(),
+                Some("nosuggest") => Plan {
                     tag: "nosuggest",
                     profile: profile_general(),
                     programs: (112, 700),
                     per_program: (80, 300),
                     cases: general_cases,
                     min_nontrivial: 200,
-                    // with the feature off everything but the suggestion must stay identical
-                    adopt: &["C01", "C02"],
+                    adopt: &[],
                     suggestions: false,
                 },
-            ),
-            _ => run_general(&args, "C17"),
-        },
+                _ => general_plan(),
+            };
+            // with the feature off everything but the suggestion must stay identical
+            plan.adopt = if profile.as_deref() == Some("nosuggest") { &["C01", "C02"] } else { &[] };
+            run_corpus(&args, prop, plan)
+        }
         "C20" => run_c20(&args),
         "C16" => run_corpus(&args, "C16", magic_plan()),
         "C18" => {
